@@ -146,3 +146,84 @@ pub fn add_twin(p: &mut Program, rng: &mut Rng) -> bool {
     }
     true
 }
+
+/// Shadowed imports: before the `use "<A>" as q;` of a module M, another module S is imported under the same
+/// qualifier; S declares the names of A that M uses through `q`, as values of another kind. The later import
+/// wins, so every `q.name` still denotes A's declaration. Sometimes A is also imported once more in front
+/// (`A, S, A`). Whatever forgets the order of `use` statements, or treats a repeated import as redundant, binds
+/// `q.name` to S.
+pub fn add_shadow_import(p: &mut Program, rng: &mut Rng) -> bool {
+    // (module, statement index, target, qualifier, path)
+    let mut cands: Vec<(usize, usize, usize, String, String)> = Vec::new();
+    for (m, md) in p.modules.iter().enumerate() {
+        for (si, s) in md.stmts.iter().enumerate() {
+            if let Stmt::Use { path, target, qual: Some(q) } = s {
+                // the only import under this qualifier
+                let unique = md.stmts.iter().filter(|x| matches!(x, Stmt::Use { qual: Some(q2), .. } if q2 == q)).count() == 1;
+                if unique {
+                    cands.push((m, si, *target, q.clone(), path.clone()));
+                }
+            }
+        }
+    }
+    if cands.is_empty() {
+        return false;
+    }
+    let (m, si, a, q, a_path) = rng.pick(&cands).clone();
+    // names of A used through q in M (not @references: a reference name denotes one component of the document)
+    let mut names: Vec<String> = Vec::new();
+    for e in p.module_exprs(m) {
+        e.visit(&mut |x| {
+            if let E::Var { qual: Some(q2), name, target: Target::Decl(d) } = x {
+                if *q2 == q && p.decls[*d].module == a && !name.starts_with('@') && !names.contains(name) {
+                    names.push(name.clone());
+                }
+            }
+        });
+    }
+    if names.is_empty() {
+        return false;
+    }
+    let dir = match p.modules[m].file.rfind('/') {
+        Some(i) => p.modules[m].file[..=i].to_owned(),
+        None => String::new(),
+    };
+    let file = format!("{dir}zshadow.oal");
+    if p.modules.iter().any(|x| x.file == file) {
+        return false;
+    }
+    let s_idx = p.modules.len();
+    let mut stmts = Vec::new();
+    for n in &names {
+        let id = p.decls.len();
+        let was_text = p.decls.iter().any(|d| d.module == a && d.name == *n && d.ty == Ty::Text);
+        p.decls.push(Decl {
+            module: s_idx,
+            name: n.clone(),
+            params: vec![],
+            anns: vec![],
+            rhs: if was_text { E::LitNum(7) } else { E::LitStr("shadow".into()) },
+            ty: if was_text { Ty::Num } else { Ty::Text },
+        });
+        stmts.push(Stmt::Let { id });
+    }
+    p.modules.push(Module { file, stmts });
+    let shadow_use = Stmt::Use {
+        path: "zshadow.oal".into(),
+        target: s_idx,
+        qual: Some(q.clone()),
+    };
+    p.modules[m].stmts.insert(si, shadow_use);
+    if rng.chance(1, 2) {
+        // A, S, A
+        p.modules[m].stmts.insert(
+            si,
+            Stmt::Use {
+                path: a_path,
+                target: a,
+                qual: Some(q),
+            },
+        );
+    }
+    true
+}
